@@ -69,24 +69,30 @@ def Reg.realTime {K} [Num K] (r : Reg K) (row place : Nat) : Time K :=
   | .fin s => .fin (indexToRealTime (r.line s) row place)
   | .inf => .inf
 
+/-- The data set after `_add_data_point` appended the new point, dropped the points whose weight is
+not above `WEIGHT_REJECTION_THRESHOLD`, and forgot the oldest one when full. -/
+def Reg.newDataSet {K} [Num K] (r : Reg K) (row place : Nat) (realTime weight : K) : List (K × K × K) :=
+  let ds1 := r.dataSet ++ [(r.blowTime row place, realTime, weight)]
+  let ds2 := ds1.filter (fun d => Num.ofQ weightRejectionThreshold < d.2.2)
+  if r.maxBells ≤ (ds2.length : Int) then ds2.tail else ds2
+
+/-- The `lerp` of the fitted line into the current one. -/
+def Reg.relerp {K} [Num K] (r : Reg K) (fit : K × K) (inertia : K) : Reg K :=
+  match r.start with
+  | .fin s => { r with start := .fin (lerp fit.1 s inertia), interval := lerp fit.2 r.interval inertia }
+  | .inf => { r with start := .inf, interval := lerp fit.2 r.interval inertia }
+
 /-- `_add_data_point`; `reg` supplies the result of `calculate_regression` for the filtered data set
 (the driver passes the implementation's own numpy results as a tape so that LAPACK rounding cannot
 flip a later comparison; the proofs instantiate it with `regress`). -/
 def Reg.addDataPoint {K} [Num K] (r : Reg K) (reg : List (K × K × K) → K × K)
     (row place : Nat) (realTime weight : K) : Reg K :=
-  let bt := r.blowTime row place
-  let ds1 := r.dataSet ++ [(bt, realTime, weight)]
-  let ds2 := ds1.filter (fun d => Num.ofQ weightRejectionThreshold < d.2.2)
-  let ds3 := if r.maxBells ≤ (ds2.length : Int) then ds2.tail else ds2
+  let ds3 := r.newDataSet row place realTime weight
   let inertia := if 0 < row then r.preferredInertia else r.initialInertia
   let r1 := { r with dataSet := ds3 }
   if Num.eqb inertia (Num.ofNat 1) then r1
   else if r.minBells ≤ (ds3.length : Int) then
-    let (ns, ni) := reg ds3
-    let r2 := { r1 with nReg := r.nReg + 1, lastOwn := regress ds3 }
-    match r.start with
-    | .fin s => { r2 with start := .fin (lerp ns s inertia), interval := lerp ni r.interval inertia }
-    | .inf => { r2 with start := .inf, interval := lerp ni r.interval inertia }
+    ({ r1 with nReg := r.nReg + 1, lastOwn := regress ds3 }).relerp (reg ds3) inertia
   else r1
 
 /-- What `wait_for_bell_time` of the regression rhythm does. -/
@@ -131,14 +137,16 @@ def Reg.onBellRing {K} [Num K] (r : Reg K) (wt : K → K) (reg : List (K × K ×
     let r2 := r1.addDataPoint reg row place realTime w
     { r2 with expected := r2.expected.filter (fun p => p.1 != (bell, hand)) }
 
+/-- First half of `initialise_line`: new stage, empty data set, interval from the peal speed. -/
+def Reg.resetForTouch {K} [Num K] (r : Reg K) (stage : Nat) : Reg K :=
+  { r with stage := stage, dataSet := [], interval := pealSpeedToBlowInterval r.pealSpeed stage }
+
 /-- `initialise_line(stage, user_controls_treble, start_time, n_user)` -/
 def Reg.initialiseLine {K} [Num K] (r : Reg K) (reg : List (K × K × K) → K × K) (stage : Nat)
     (userTreble : Bool) (startTime : K) : Reg K :=
-  let r1 := { r with stage, dataSet := [], interval := pealSpeedToBlowInterval r.pealSpeed stage }
   if !userTreble then
-    let r2 := r1.addDataPoint reg 0 0 startTime (Num.ofNat 1)
-    { r2 with start := .fin startTime }
-  else { r1 with start := .inf }
+    { (r.resetForTouch stage).addDataPoint reg 0 0 startTime (Num.ofNat 1) with start := .fin startTime }
+  else { r.resetForTouch stage with start := .inf }
 
 /-- `change_setting("peal_speed", v, real_time)` for a positive integer `v`; the line is bent at the
 current position. -/
